@@ -14,12 +14,15 @@ import (
 	"net"
 	"os"
 	"path/filepath"
+	"reflect"
 	"sort"
 	"strings"
 	"sync"
 	"sync/atomic"
 	"time"
+	"unsafe"
 
+	statshouse "github.com/VKCOM/statshouse-go"
 	"github.com/VKCOM/statshouse/internal/data_model/gen2/tlmetadata"
 	"github.com/VKCOM/statshouse/internal/format"
 	"github.com/VKCOM/statshouse/internal/sqlite"
@@ -51,7 +54,13 @@ var mdkQuietOnce sync.Once
 // mdkQuiet drops the engine's per-call log lines ("[sqlite] return err to user ...",
 // one per refused request): they would make the unit log hundreds of MB.
 func mdkQuiet() {
-	mdkQuietOnce.Do(func() { log.SetOutput(io.Discard) })
+	mdkQuietOnce.Do(func() {
+		log.SetOutput(io.Discard)
+		// the package reports its own timings through the process-global statshouse-go client,
+		// which by default sends to 127.0.0.1:13337 — on this machine possibly the ingress of
+		// another check's pipeline.  An empty address makes the client discard everything.
+		statshouse.Configure(func(string, ...interface{}) {}, "", "")
+	})
 }
 
 // mdkClock is the virtual clock handed to Options.Now.
@@ -105,6 +114,36 @@ func mdkScratch(r *verifkit.Run, prefix string) (string, func()) {
 		return real, func() { _ = os.RemoveAll(real) }
 	}
 	return link, func() { _ = os.Remove(link); _ = os.RemoveAll(real) }
+}
+
+// mdkClose is DBV2.Close without its 5-second limit: on a loaded machine the final commit
+// (binlog fsync + SQLite commit) can take longer, and a timed-out Close leaves the engine
+// closing in the background — a wall-clock effect that must not reach a verdict.
+//
+// It also stops the engine's commit-timer goroutine.  sqlite.Engine.Close never cancels the
+// engine context, so txLoop survives every Close and wakes up once per CommitEvery to run
+// COMMIT/last_insert_rowid on the closed connection (SQLITE_MISUSE through the cgo log
+// callback, one OS thread each).  A server opens its engine once; these harnesses open
+// tens of thousands in one process, and the leaked goroutines ended a thorough run with
+// "program exceeds 10000-thread limit".  The cancel function is an unexported field of
+// another package, hence the reflection.
+func mdkClose(db *DBV2) error {
+	err := db.eng.Close(context.Background())
+	db.cancel()
+	mdkStopEngineTimer(db.eng)
+	return err
+}
+
+func mdkStopEngineTimer(e *sqlite.Engine) {
+	defer func() { _ = recover() }() // field renamed or retyped: nothing to stop, the leak stays
+	f := reflect.ValueOf(e).Elem().FieldByName("stop")
+	if !f.IsValid() || f.Kind() != reflect.Func || f.IsNil() {
+		return
+	}
+	stop, ok := reflect.NewAt(f.Type(), unsafe.Pointer(f.UnsafeAddr())).Elem().Interface().(func())
+	if ok && stop != nil {
+		stop()
+	}
 }
 
 func mdkCopyFile(src, dst string) error {
@@ -592,7 +631,6 @@ func mdkOpString(op mdkSaveOp) string {
 	}
 	return fmt.Sprintf("%s{%s %q id=%d ver=%d create=%v del=%d}", op.Class, mdkTypName(op.Typ), n, op.ID, op.Ver, op.Create, op.Del)
 }
-
 
 // ---------------------------------------------------------------------------------------
 // the real RPC surface: Handler behind a tl rpc.Server on a loopback port, real client
